@@ -75,6 +75,8 @@ INVALID_NEW = {
 }
 
 INVALID_N = {
+    # a numpy integer is either rejected like any non-int (TypeError, the pinned behaviour) or treated as the int it is
+    "n_numpy_integer": (lambda e: np.int64(3), ("TypeError", "OK")),
     "n_float": (lambda e: 3.0, ("TypeError",)),
     "n_str": (lambda e: "3", ("TypeError",)),
     "n_tuple": (lambda e: (3,) * e, ("TypeError",)),
@@ -196,6 +198,8 @@ def any_alias(obj, arrs):
 
 
 def check_contract(w, site, kind, accepted, out):
+    if out[0] == "ok" and "OK" in accepted:
+        return
     if out[0] == "ok":
         w.violate("exception_contract", site + ":" + kind, {"expected": list(accepted), "got": "no exception"})
     elif type(out[1]).__name__ not in accepted:
@@ -410,6 +414,9 @@ def h_net_sample(w, st, rec):
         w.probes["invalid:" + kind] += 1
         net["fmask"] |= 4
         check_contract(w, site, kind, INVALID_N[kind][1], out)
+        if out[0] == "ok" and "OK" in INVALID_N[kind][1]:
+            for cls, s2, detail in check_sample(w, st, rec["net"], net, dict(rec, n=int(n)), out[1], msgs):
+                w.violate(cls, s2, dict(detail, n_given_as=kind))
         return outcome_digest(*out), out
     if out[0] == "exc":
         if failed_peer:
